@@ -353,6 +353,55 @@ def _quantifier_loops(stmts):
     return out
 
 
+def _genexp_loops(stmts, root=None):
+    """N44: a generator expression consumed by one `for`, written in the loop's head or bound by the statement just before it and used nowhere else,
+
+        G = (E for T in XS if C)           for T in XS:
+        for x in G: B               ->         if C:        (when there is a condition; B without `continue` then)
+                                                   x = E; B
+
+    - the same interleaving of E, C and B that the lazy generator gives.  T must not be a name the function uses otherwise."""
+    out = []
+    for st in stmts:
+        if isinstance(st, ast.For) and not st.orelse and isinstance(st.target, ast.Name):
+            gen, bound = None, None
+            if isinstance(st.iter, ast.GeneratorExp):
+                gen = st.iter
+            elif isinstance(st.iter, ast.Name) and out and isinstance(out[-1], ast.Assign) and len(out[-1].targets) == 1 and isinstance(out[-1].targets[0], ast.Name) \
+                    and out[-1].targets[0].id == st.iter.id and isinstance(out[-1].value, ast.GeneratorExp) and root is not None \
+                    and sum(1 for n in ast.walk(root) if isinstance(n, ast.Name) and n.id == st.iter.id) == 2:
+                gen, bound = out[-1].value, out[-1]
+            if gen is not None and len(gen.generators) == 1 and not gen.generators[0].is_async:
+                g0 = gen.generators[0]
+                tn = {n.id for n in ast.walk(g0.target) if isinstance(n, ast.Name)}
+                others = {n.id for n in ast.walk(root if root is not None else ast.Module(body=stmts, type_ignores=[])) if isinstance(n, ast.Name)} if tn else set()
+                inside = {n.id for n in ast.walk(gen) if isinstance(n, ast.Name)}
+                clash = {t for t in tn if sum(1 for n in ast.walk(root if root is not None else ast.Module(body=stmts, type_ignores=[]))
+                                               if isinstance(n, ast.Name) and n.id == t) > sum(1 for n in ast.walk(gen) if isinstance(n, ast.Name) and n.id == t)}
+                has_continue = any(isinstance(x, ast.Continue) for b in st.body for x in ast.walk(b))
+                if not clash and st.target.id not in inside and not (g0.ifs and has_continue) and others is not None:
+                    asg = ast.copy_location(ast.Assign(targets=[ast.Name(id=st.target.id, ctx=ast.Store())], value=gen.elt, type_comment=None), st)
+                    body = [asg] + list(st.body)
+                    if g0.ifs:
+                        cond = g0.ifs[0] if len(g0.ifs) == 1 else ast.BoolOp(op=ast.And(), values=list(g0.ifs))
+                        body = [ast.copy_location(ast.If(test=cond, body=body, orelse=[]), st)]
+                    new = ast.copy_location(ast.For(target=g0.target, iter=g0.iter, body=body, orelse=[], type_comment=None), st)
+
+                    class _St(ast.NodeTransformer):
+                        def visit_Name(s_, node):
+                            return node
+                    for n in ast.walk(new.target):
+                        if isinstance(n, (ast.Name, ast.Tuple, ast.List)):
+                            n.ctx = ast.Store()
+                    ast.fix_missing_locations(new)
+                    if bound is not None:
+                        out.pop()
+                    out.append(new)
+                    continue
+        out.append(st)
+    return out
+
+
 def _unpack_fields(stmts):
     """N39: `a, b, c = struct.unpack("32s36sB", X)` (X a plain name; only `Ns`, `B`, `x` items, or fixed-endian unsigned H / I / Q)
         ->  struct.unpack("32s36sB", X)            (kept for what it may raise: the length must match)
@@ -1762,9 +1811,21 @@ class Normalizer:
                 return None
             if recv == "self" or recv == cname or recv == "cls":
                 fd = self._methods(cdef).get(f.attr)
+                owner = cname
+                if fd is None and recv == "self":
+                    # inherited from a base class of the same module (single chain of plain-name bases)
+                    cur, hops = cdef, 0
+                    while fd is None and hops < 6:
+                        bs = [self.classes.get((modname, b)) for b in self._base_names(cur)]
+                        bs = [b for b in bs if b is not None]
+                        if len(bs) != 1 or len(cur.bases) != 1:
+                            break
+                        cur, hops = bs[0], hops + 1
+                        fd = self._methods(cur).get(f.attr)
+                        owner = cur.name
                 if fd is None:
                     return None
-                q = f"{modname}:{cname}.{f.attr}"
+                q = f"{modname}:{owner}.{f.attr}"
                 if q in self.known_f or not self._inlinable_def(fd):
                     return None
                 if self._overridden(modname, cname, f.attr):
@@ -1942,7 +2003,7 @@ class Normalizer:
                            or (isinstance(n, ast.Name) and n.id == nm and isinstance(n.ctx, (ast.Store, ast.Del))) for n in ast.walk(st)):
                         del self._closures[nm]
         self._closures = saved
-        return _unpack_fields(_counted_list_loops(_quantifier_loops(out)))
+        return _unpack_fields(_counted_list_loops(_quantifier_loops(_genexp_loops(out, state.get("root")))))
 
     def _closure_only_called(self, fd, state):
         root = state.get("root")
@@ -2086,6 +2147,10 @@ class Normalizer:
                 st.iter = d
                 st.body = [asg] + st.body
                 self.lowered.append((state["caller"], getattr(st, "lineno", 0), "dict-items"))
+        if isinstance(st, ast.For) and not st.orelse and isinstance(st.target, ast.Name) and isinstance(st.iter, ast.Call) and len(stack) <= MAX_DEPTH:
+            low = self._generator_loop(st, modname, cname, stack, state)
+            if low is not None:
+                return low
         if isinstance(st, (ast.For, ast.AsyncFor)):
             st.body = rec(st.body)
             st.orelse = rec(st.orelse)
@@ -2205,6 +2270,93 @@ class Normalizer:
             # `raise self._error_for(e)`: the helper chooses the exception
             return self._hoist(st, "exc", modname, cname, stack, state)
         return [st]
+
+    def _generator_loop(self, st, modname, cname, stack, state):
+        """N45: `for x in self._gen(a): B` over a helper that is a simple generator - statements, then one `for T in XS: ...; yield E` with the yield as
+        the loop's last statement, nothing after it, no return - is the helper's body with `x = E; B` in the place of the yield: the lazy generator
+        runs its statements interleaved with B in exactly that order."""
+        call = st.iter
+        f = call.func
+        if any(isinstance(a, ast.Starred) for a in call.args) or any(k.arg is None for k in call.keywords):
+            return None
+        fd, qual, bound = None, None, False
+        if isinstance(f, ast.Name) and f.id in self._closures:
+            fd, qual = self._closures[f.id], (f"{modname}:{cname}.<{f.id}>" if cname else f"{modname}:<{f.id}>")
+        elif isinstance(f, ast.Name):
+            fd, qual = self.mod_funcs.get(modname, {}).get(f.id), f"{modname}:{f.id}"
+        elif isinstance(f, ast.Attribute) and isinstance(f.value, ast.Name) and f.value.id in ("self", "cls", cname) and cname is not None:
+            cdef = self.classes.get((modname, cname))
+            fd = self._methods(cdef).get(f.attr) if cdef is not None else None
+            qual = f"{modname}:{cname}.{f.attr}"
+            if fd is not None:
+                if self._overridden(modname, cname, f.attr):
+                    return None
+                static = any(isinstance(d, ast.Name) and d.id == "staticmethod" for d in fd.decorator_list)
+                bound = not static
+                if f.value.id != "self" and not static:
+                    return None
+        if fd is None or qual in self.known_f or qual in stack:
+            return None
+        own = []
+
+        def collect(ss):
+            for s_ in ss:
+                if isinstance(s_, (ast.FunctionDef, ast.AsyncFunctionDef, ast.ClassDef)):
+                    continue
+                for n in ast.walk(s_) if not _child_lists(s_) else []:
+                    if isinstance(n, (ast.Yield, ast.YieldFrom, ast.Return)):
+                        own.append((s_, n))
+                if _child_lists(s_):
+                    for h_ in ([s_.test] if isinstance(s_, (ast.If, ast.While)) else []) + ([s_.iter] if isinstance(s_, ast.For) else []):
+                        for n in ast.walk(h_):
+                            if isinstance(n, (ast.Yield, ast.YieldFrom)):
+                                own.append((s_, n))
+                    for owner, fld in _child_lists(s_):
+                        collect(getattr(owner, fld))
+        collect(fd.body)
+        if len(own) != 1 or not isinstance(own[0][1], ast.Yield) or own[0][1].value is None:
+            return None
+        ys, yn = own[0]
+        if not (isinstance(ys, ast.Expr) and ys.value is yn and fd.body and isinstance(fd.body[-1], ast.For) and not fd.body[-1].orelse
+                and fd.body[-1].body and fd.body[-1].body[-1] is ys):
+            return None
+        if any(isinstance(n, (ast.Lambda, ast.FunctionDef)) and n is not fd for n in ast.walk(fd)):
+            return None
+        fd2 = copy.deepcopy(fd)
+        mark = "__gen_item__"
+        y2 = fd2.body[-1].body[-1]
+        fd2.body[-1].body[-1] = ast.copy_location(ast.Assign(targets=[ast.Name(id=mark, ctx=ast.Store())], value=y2.value.value, type_comment=None), y2)
+        ast.fix_missing_locations(fd2)
+        fd2._normalised = False
+        if not self._inlinable_def(fd2):
+            return None
+        body = self._stmts(st.body, modname, cname, stack, state)
+        r = self._inline(call, qual, fd2, bound, modname, cname, stack, state)
+        if r is None:
+            return None
+        block, ret = r
+        done = []
+
+        def splice(ss):
+            for i, s_ in enumerate(ss):
+                if isinstance(s_, ast.Assign) and len(s_.targets) == 1 and isinstance(s_.targets[0], ast.Name) and s_.targets[0].id.startswith(mark):
+                    a_ = ast.copy_location(ast.Assign(targets=[ast.Name(id=st.target.id, ctx=ast.Store())], value=s_.value, type_comment=None), st)
+                    ast.fix_missing_locations(a_)
+                    ss[i:i + 1] = [a_] + body
+                    done.append(1)
+                    return True
+                for owner, fld in ([(s_, "prologue"), (s_, "body"), (s_, "epilogue")] if isinstance(s_, InlineBlock) else _child_lists(s_)):
+                    if splice(getattr(owner, fld)):
+                        return True
+            return False
+        if not splice(block.body):
+            return None
+        block.epilogue = []
+        # the helper's trailing `<ret> = None` result is of no use
+        block.body = [s_ for s_ in block.body if not (isinstance(s_, ast.Assign) and len(s_.targets) == 1 and isinstance(s_.targets[0], ast.Name) and s_.targets[0].id == ret
+                                                      and isinstance(s_.value, ast.Constant) and s_.value.value is None)]
+        self.lowered.append((state["caller"], getattr(st, "lineno", 0), "generator-loop"))
+        return [block]
 
     def _hoist(self, st, field, modname, cname, stack, state):
         """Inline the first inlinable call of st.<field>; repeat on the rewritten statement."""
